@@ -4,8 +4,8 @@ import (
 	"fmt"
 
 	corev1 "k8s.io/api/core/v1"
-	metav1 "k8s.io/apimachinery/pkg/apis/meta/v1"
 	"k8s.io/apimachinery/pkg/api/resource"
+	metav1 "k8s.io/apimachinery/pkg/apis/meta/v1"
 	"k8s.io/apimachinery/pkg/types"
 )
 
@@ -30,12 +30,20 @@ var ctrNames = []string{"a", "b", "a-b", "pod", "al-l", "container", "c1", "c2",
 
 var volSources = []func() corev1.VolumeSource{
 	func() corev1.VolumeSource { return corev1.VolumeSource{EmptyDir: &corev1.EmptyDirVolumeSource{}} },
-	func() corev1.VolumeSource { return corev1.VolumeSource{HostPath: &corev1.HostPathVolumeSource{Path: "/"}} },
-	func() corev1.VolumeSource { return corev1.VolumeSource{Secret: &corev1.SecretVolumeSource{SecretName: "s"}} },
-	func() corev1.VolumeSource { return corev1.VolumeSource{NFS: &corev1.NFSVolumeSource{Server: "s", Path: "/"}} },
+	func() corev1.VolumeSource {
+		return corev1.VolumeSource{HostPath: &corev1.HostPathVolumeSource{Path: "/"}}
+	},
+	func() corev1.VolumeSource {
+		return corev1.VolumeSource{Secret: &corev1.SecretVolumeSource{SecretName: "s"}}
+	},
+	func() corev1.VolumeSource {
+		return corev1.VolumeSource{NFS: &corev1.NFSVolumeSource{Server: "s", Path: "/"}}
+	},
 	func() corev1.VolumeSource { return corev1.VolumeSource{} },
 	func() corev1.VolumeSource { return corev1.VolumeSource{ConfigMap: &corev1.ConfigMapVolumeSource{}} },
-	func() corev1.VolumeSource { return corev1.VolumeSource{Image: &corev1.ImageVolumeSource{Reference: "x"}} },
+	func() corev1.VolumeSource {
+		return corev1.VolumeSource{Image: &corev1.ImageVolumeSource{Reference: "x"}}
+	},
 	func() corev1.VolumeSource { return corev1.VolumeSource{CSI: &corev1.CSIVolumeSource{Driver: "d"}} },
 	func() corev1.VolumeSource { return corev1.VolumeSource{DownwardAPI: &corev1.DownwardAPIVolumeSource{}} },
 	func() corev1.VolumeSource { return corev1.VolumeSource{Ephemeral: &corev1.EphemeralVolumeSource{}} },
@@ -43,9 +51,15 @@ var volSources = []func() corev1.VolumeSource{
 		return corev1.VolumeSource{PersistentVolumeClaim: &corev1.PersistentVolumeClaimVolumeSource{ClaimName: "c"}}
 	},
 	func() corev1.VolumeSource { return corev1.VolumeSource{Projected: &corev1.ProjectedVolumeSource{}} },
-	func() corev1.VolumeSource { return corev1.VolumeSource{GCEPersistentDisk: &corev1.GCEPersistentDiskVolumeSource{PDName: "p"}} },
-	func() corev1.VolumeSource { return corev1.VolumeSource{AWSElasticBlockStore: &corev1.AWSElasticBlockStoreVolumeSource{VolumeID: "v"}} },
-	func() corev1.VolumeSource { return corev1.VolumeSource{GitRepo: &corev1.GitRepoVolumeSource{Repository: "r"}} },
+	func() corev1.VolumeSource {
+		return corev1.VolumeSource{GCEPersistentDisk: &corev1.GCEPersistentDiskVolumeSource{PDName: "p"}}
+	},
+	func() corev1.VolumeSource {
+		return corev1.VolumeSource{AWSElasticBlockStore: &corev1.AWSElasticBlockStoreVolumeSource{VolumeID: "v"}}
+	},
+	func() corev1.VolumeSource {
+		return corev1.VolumeSource{GitRepo: &corev1.GitRepoVolumeSource{Repository: "r"}}
+	},
 	func() corev1.VolumeSource { return corev1.VolumeSource{ISCSI: &corev1.ISCSIVolumeSource{}} },
 	func() corev1.VolumeSource { return corev1.VolumeSource{Glusterfs: &corev1.GlusterfsVolumeSource{}} },
 	func() corev1.VolumeSource { return corev1.VolumeSource{RBD: &corev1.RBDVolumeSource{}} },
@@ -55,10 +69,14 @@ var volSources = []func() corev1.VolumeSource{
 	func() corev1.VolumeSource { return corev1.VolumeSource{Flocker: &corev1.FlockerVolumeSource{}} },
 	func() corev1.VolumeSource { return corev1.VolumeSource{FC: &corev1.FCVolumeSource{}} },
 	func() corev1.VolumeSource { return corev1.VolumeSource{AzureFile: &corev1.AzureFileVolumeSource{}} },
-	func() corev1.VolumeSource { return corev1.VolumeSource{VsphereVolume: &corev1.VsphereVirtualDiskVolumeSource{}} },
+	func() corev1.VolumeSource {
+		return corev1.VolumeSource{VsphereVolume: &corev1.VsphereVirtualDiskVolumeSource{}}
+	},
 	func() corev1.VolumeSource { return corev1.VolumeSource{Quobyte: &corev1.QuobyteVolumeSource{}} },
 	func() corev1.VolumeSource { return corev1.VolumeSource{AzureDisk: &corev1.AzureDiskVolumeSource{}} },
-	func() corev1.VolumeSource { return corev1.VolumeSource{PhotonPersistentDisk: &corev1.PhotonPersistentDiskVolumeSource{}} },
+	func() corev1.VolumeSource {
+		return corev1.VolumeSource{PhotonPersistentDisk: &corev1.PhotonPersistentDiskVolumeSource{}}
+	},
 	func() corev1.VolumeSource { return corev1.VolumeSource{PortworxVolume: &corev1.PortworxVolumeSource{}} },
 	func() corev1.VolumeSource { return corev1.VolumeSource{ScaleIO: &corev1.ScaleIOVolumeSource{}} },
 	func() corev1.VolumeSource { return corev1.VolumeSource{StorageOS: &corev1.StorageOSVolumeSource{}} },
@@ -68,6 +86,8 @@ type PodCase struct {
 	Pod   *corev1.Pod
 	Base  string
 	Atoms []string
+	// FewMinors: evaluate at a round-robin sample of the interesting versions instead of all of them (large deterministic families)
+	FewMinors bool
 }
 
 // scAtoms: one atom sets one modelled container-level field to one value class.
